@@ -285,9 +285,11 @@ pub fn run(ctx: &mut Ctx) {
         let ks = scalar_for(&mut p, i % 28);
         // identities / messages beyond the 2^16-bit and 2^16-byte thresholds (length fields, counters, truncating casts)
         const LONG: [usize; 8] = [8185, 8186, 8191, 8192, 8193, 20000, 65536, 70001];
+        // and, for messages only, the next length-field byte of the hash (2 MiB = 2^24 bits) and 16 MiB
+        const VERY_LONG: [usize; 3] = [(1 << 21) - 400, 1 << 21, (1 << 24) + 1];
         let idlen = if i % 9 == 0 { 0 } else if i % 16 == 5 { LONG[((i / 16) % 8) as usize] } else { p.range(1, 64) };
         let id = p.bytes(idlen);
-        let mlen = if i % 7 == 0 { 0 } else if i % 16 == 13 { LONG[((i / 16 + 3) % 8) as usize] } else if i % 5 == 0 { p.range(200, 1024) } else { p.range(1, 100) };
+        let mlen = if i % 7 == 0 { 0 } else if i % 32 == 29 { VERY_LONG[((i / 32) % 3) as usize] } else if i % 16 == 13 { LONG[((i / 16 + 3) % 8) as usize] } else if i % 5 == 0 { p.range(200, 1024) } else { p.range(1, 100) };
         let msg = p.bytes(mlen);
         if idlen >= 8185 {
             ctx.class("id_beyond_2^16_bits");
@@ -321,7 +323,7 @@ pub fn run(ctx: &mut Ctx) {
     // --- identities containing NUL bytes, trailing blanks or newlines, non-UTF-8 bytes (hashed exactly as given)
     {
         let mut pl = ctx.prng("nul_ids");
-        for (k, id) in [b"Bob\0".to_vec(), b"\0Bob".to_vec(), b"Bo\0b".to_vec(), vec![0u8], vec![0u8; 4], b"Bob\0\0".to_vec(), b"Bob ".to_vec(), b" Bob".to_vec(), b"Bob\n".to_vec(), vec![0xffu8, 0xfe, 0x80]].iter().enumerate() {
+        for (k, id) in [b"Bob\0".to_vec(), b"\0Bob".to_vec(), b"Bo\0b".to_vec(), vec![0u8], vec![0u8; 4], b"Bob\0\0".to_vec(), b"Bob ".to_vec(), b" Bob".to_vec(), b"Bob\n".to_vec(), vec![0xffu8, 0xfe, 0x80], b"Alice\x01".to_vec(), b"Alice\x02".to_vec(), b"Alice\x03".to_vec(), vec![1u8], vec![3u8]].iter().enumerate() {
             let sub = pl.next();
             if !ctx.mine(k as u64) {
                 continue;
